@@ -9,7 +9,7 @@ import os
 import shutil
 import struct
 
-from . import core
+from . import core, sanit
 from .core import Case
 from .val import Arr, Builtin, Byte, Char, Closure, ErrObj, I64_MAX, I64_MIN, Map, Opaque, kind, lit
 
@@ -88,6 +88,12 @@ def many_locals():
         body = " ".join("let v%d = %d;" % (i, i) for i in range(n))
         out.append("fn f() { %s v0 + v%d } f()" % (body, n - 1))
         out.append("fn f(x) { %s if x == 0 { 0 } else { f(x - 1) } } f(3)" % body)
+    # frames with many locals stacked right up to the operand-stack limit: the last frame's slots straddle it
+    for n in (3, 10, 100, 200, 254):
+        body = " ".join("let v%d = x + %d;" % (i, i) for i in range(n))
+        per = n + 2
+        for d in sorted(set([4096 // per - 2, 4096 // per - 1, 4096 // per, 4096 // per + 1, 4096 // (n + 1), 4096 // (n + 1) + 1, 4096 // n + 1])):
+            out.append("fn f(x) { %s if x == 0 { v%d } else { f(x - 1) + v%d } } f(%d)" % (body, n - 1, n // 2, d))
     for n in (100, 1000, 5000):
         out.append(" ".join("let g%d = %d;" % (i, i) for i in range(n)) + " g0 + g%d" % (n - 1))
     for n in (10, 100, 254, 255, 256, 257, 300, 500):
@@ -181,13 +187,31 @@ def run(chk):
         except ImportError:
             pass
         cases = []
+        # packets: every layer of random frames and of their truncations read and written back (crash-freedom only here;
+        # the values are C15/C16's business)
+        from . import c15
+        pcases, _ = c15.build_cases(rng, work, 60 if quick else 1500, quick)
+        for c in pcases:
+            c.id = "pk" + c.id
+            jobs.append(("packets", "", c.src))
+            c.id = "j%d" % (len(jobs) - 1)
         routed = []   # run through the binary because they touch stdin / exit
         for i, (cls, tag, src) in enumerate(jobs):
-            if "stdin" in src or "input" in src or "exit" in src:
+            if cls == "packets":
+                cases.append(Case("j%d" % i, src, {"steps": 2000000}))
+            elif "stdin" in src or "input" in src or "exit" in src:
                 routed.append(i)
             else:
                 cases.append(Case("j%d" % i, src, {"steps": 400000}))
         res = core.run_cases(cases)
+        # sanitizer sweeps over the same corpus (DESIGN section 8): thorough tier, or as soon as `unsafe` appears in the tree
+        unsafe_hits = sanit.want_quick()
+        if unsafe_hits:
+            chk.count("unsafe code present: %s" % ", ".join(unsafe_hits[:5]))
+        if not quick or unsafe_hits:
+            sanit.asan_sweep(chk, cases, "c08", limit=(150000 if not quick else 30000))
+        if not quick:
+            sanit.miri_sweep(chk, [c for c in cases if len(c.src) < 200], "c08", limit=48)
         for i, (cls, tag, src) in enumerate(jobs):
             r = res.get("j%d" % i)
             if r is None:
